@@ -6,7 +6,7 @@ import PMV.Model.Index
 
   NOT modelled here (covered by the direct oracle of harness/c10.py only): the whole-object path
   taken when the index consists of True/False/None/Ellipsis/`:` only (indexer.py:101-134), right-hand
-  sides of lower rank than the selection (the rank juggling of indexer.py:166-178), derivatives.
+  sides with MORE axes than the selection, derivatives.
 -/
 namespace PMV.SetItem
 open PMV PMV.NpIndex PMV.Index
@@ -45,6 +45,11 @@ def toPoly (moved : Bool) (loc r : Nat) (o : Index) : Index :=
 def toNpShape (moved : Bool) (loc r : Nat) (sh : Shape) : Shape :=
   if moved then (sh.drop loc).take r ++ sh.take loc ++ sh.drop (loc + r) else sh
 
+/-- the shape of the right-hand side as NumPy's assignment sees it: padded with leading unit axes to
+    the rank of the selection and its array axes moved to the front when polymath relocated them -/
+def rhsLayout (mv : Bool) (loc r : Nat) (sel rhs : Shape) : Shape :=
+  if mv then toNpShape true loc r (List.replicate (sel.length - rhs.length) 1 ++ rhs) else rhs
+
 /-- indexer.py:153-163: the target's mask becomes an array unless both masks are the same scalar -/
 def expandMask (shape : Shape) (self arg : Mask) : Mask :=
   match self, arg with
@@ -69,10 +74,12 @@ def setitem (q : Obj) (indx : List Entry) (rhs : Rhs) : Outcome :=
       | none => .indexError
       | some s =>
         let r := p.arrayShape.length
-        let full := rhs.shape.length == s.shape.length
-        let mv := p.moved && full
+        -- indexer.py:174-197: a right-hand side with fewer axes than the selection lines up from
+        -- the right (it is given leading unit axes) before its array axes are moved to the front;
+        -- a shapeless one is left alone
+        let mv := p.moved && !rhs.shape.isEmpty
         -- the right-hand side must broadcast to the selection (NumPy raises ValueError otherwise)
-        if bcast (toNpShape mv p.loc r rhs.shape) s.shape != some s.shape then .valueError
+        if bcast (rhsLayout mv p.loc r s.shape rhs.shape) s.shape != some s.shape then .valueError
         else
           let pos : Index → Index := fun o => bidx rhs.shape (toPoly mv p.loc r o)
           let rv : Index → Int := fun o => rhs.vals (pos o)
@@ -100,6 +107,60 @@ def step (q : Obj) (a : List Entry × Rhs) : Obj :=
 
 /-- a sequence of assignments to the same target -/
 def assignAll (q : Obj) (as : List (List Entry × Rhs)) : Obj := as.foldl step q
+
+/-! ### derivatives (indexer.py:253-273) -/
+
+/-- an object with its derivatives (each derivative has the object's leading shape) -/
+structure ObjD where
+  main : Obj
+  derivs : List (String × Obj)
+
+structure RhsD where
+  main : Rhs
+  derivs : List (String × Rhs)
+
+inductive OutcomeD where
+  | ok (o : ObjD)
+  | indexError
+  | valueError
+
+def lookupD {α : Type} (k : String) : List (String × α) → Option α
+  | [] => none
+  | (k', x) :: r => if k' == k then some x else lookupD k r
+
+/-- a derivative that is missing counts as zero: zero values, carrying the given mask -/
+def zeroRhs (shape : Shape) (mask : Mask) : Rhs := ⟨shape, fun _ => 0, mask⟩
+def zeroObj (shape : Shape) (mask : Mask) : Obj := ⟨shape, fun _ => 0, mask⟩
+
+/-- `d[indx] = rd` for one derivative; `none` = the assignment failed -/
+def setDeriv (d : Obj) (indx : List Entry) (rd : Rhs) : Option Obj :=
+  match setitem d indx rd with
+  | .ok d' => some d'
+  | _ => none
+
+/-- `__setitem__` with derivatives: the object, then every derivative of the object (from the
+    right-hand side's derivative of that key, or zero with the right-hand side's mask), then every
+    derivative only the right-hand side has (into a zero derivative carrying the object's NEW mask).
+    A fully masked index returns before any of this. -/
+def setitemD (q : ObjD) (indx : List Entry) (rhs : RhsD) : OutcomeD :=
+  match setitem q.main indx rhs.main with
+  | .indexError => .indexError
+  | .valueError => .valueError
+  | .ok m' =>
+    match prepIndex q.main.shape indx with
+    | none => .indexError
+    | some p =>
+      if p.post.all? then .ok q
+      else
+        let old := q.derivs.mapM fun (kd : String × Obj) =>
+          (setDeriv kd.2 indx ((lookupD kd.1 rhs.derivs).getD (zeroRhs rhs.main.shape rhs.main.mask))).map
+            fun d' => (kd.1, d')
+        let new := (rhs.derivs.filter fun kr => (lookupD kr.1 q.derivs).isNone).mapM
+          fun (kr : String × Rhs) =>
+            (setDeriv (zeroObj q.main.shape m'.mask) indx kr.2).map fun d' => (kr.1, d')
+        match old, new with
+        | some ds1, some ds2 => .ok ⟨m', ds1 ++ ds2⟩
+        | _, _ => .valueError
 
 /-- `self._mask_ = self._mask_.copy()` before writing (indexer.py:192-194, 218-219): the mask array
     the target shared stays as it was; the target is re-pointed to a fresh array.  Heap of mask
